@@ -22,7 +22,8 @@ RULE = ("(i) K^3 vertex lattices (cylinder, box) and K^2 direction / flavour lat
         "(ii) 2 cylinders x 2 boxes x vertices x 30 directions; (iii) create_event for generator shape x shadow x interaction model x "
         "energy x flavour ratio x source with every draw a choice point over {default,0,0.25,0.5,0.75,0.999}, deviation bound 1 quick / 2 "
         "thorough; (iv) ListGenerator BFS to depth len+2; distinct_nontrivial = distinct lattice points / thrown events / list states")
-ASSUMPTIONS = ["uniformity/isotropy are verified as bijections between lattice cubes and equal-measure cells of the owned variates",
+ASSUMPTIONS = ["a vertex exactly on a face combined with a direction parallel to that face within rounding is an ill-posed tie and its interaction weight is not compared",
+               "uniformity/isotropy are verified as bijections between lattice cubes and equal-measure cells of the owned variates",
                "directions with a relative component below 1e-9 are not in the lattice (DESIGN C13 S)",
                "survival weight tolerance = C15 discretisation bound of slant_depth(step=500) divided by the interaction length",
                "secondaries are switched off in (iii) to bound the number of draws per throw"]
@@ -370,7 +371,10 @@ def _event_case(case):
         L_ice = L_tot / 0.92 / 100
         w_int = ((iv[1] - iv[0]) / L_ice) * math.exp(-(0 - iv[0]) / L_ice)
         got_int = p.interaction_weight
-        if not abs(got_int - w_int) <= 1e-8 * max(w_int, 1e-300) + 1e-300:
+        # a vertex exactly on a face together with a direction parallel to that face within rounding is a tie that
+        # depends on sub-ulp information (is the line 1e-15 m inside or outside the face?): not compared
+        tie = on_edge and _near_axis(dirn)
+        if not tie and not abs(got_int - w_int) <= 1e-8 * max(w_int, 1e-300) + 1e-300:
             fail("interaction-weight", "interaction weight %r, (chord/L) exp(-travel/L) = %r (chord %.6f m, travelled %.6f m, L %.6g m)"
                  % (got_int, w_int, iv[1] - iv[0], -iv[0], L_ice), vertex_on_boundary=bool(on_edge), near_axis_direction=_near_axis(dirn))
         if shadow:
